@@ -1,0 +1,33 @@
+//go:build verif
+// +build verif
+
+package onet
+
+import (
+	"sort"
+
+	"go.dedis.ch/onet/v3/network"
+)
+
+// Only built with the tag "verif" (verification harness of property C14).
+
+// VerifC14ClientState returns, for the destination dst, the paths for which
+// the client currently holds a connection and those for which it holds a lock
+// object, both sorted. It only reads, under the client's own mutex.
+func (c *Client) VerifC14ClientState(dst *network.ServerIdentity) (conns, locks []string) {
+	c.Lock()
+	defer c.Unlock()
+	for d := range c.connections {
+		if d.si == dst {
+			conns = append(conns, d.path)
+		}
+	}
+	for d := range c.connectionsLock {
+		if d.si == dst {
+			locks = append(locks, d.path)
+		}
+	}
+	sort.Strings(conns)
+	sort.Strings(locks)
+	return
+}
